@@ -147,6 +147,7 @@ type ClientPlan struct {
 	RetryCount       uint       `json:"retry_count"`
 	UsePredefined    bool       `json:"use_predefined,omitempty"` // share Cfg.Predefined
 	StartMs          int64      `json:"start_ms,omitempty"`
+	EchoQoS          uint8      `json:"echo_qos,omitempty"` // every subscription handler publishes what it got on "cd" with this QoS (and waits for the result)
 	Ops              []ClientOp `json:"ops"`
 }
 
